@@ -41,9 +41,13 @@ struct IOP {
         return r;
     }
     static std::string show(const E& x) {
-        if (x.size() == 0) return "z";
+        // the VALUE of the polynomial: trailing zero coefficients are not shown (whether a result is stored in
+        // normal form is C08's subject; several three-address forms return sub() results that are not)
+        size_t n = x.size();
+        while (n > 0 && g_base->isZero(x[n - 1])) --n;
+        if (n == 0) return "z";
         std::ostringstream o;
-        for (size_t i = 0; i < x.size(); ++i) { long v; g_base->convert(v, x[i]); o << (i ? "," : "") << v; }
+        for (size_t i = 0; i < n; ++i) { long v; g_base->convert(v, x[i]); o << (i ? "," : "") << v; }
         return o.str();
     }
 };
@@ -74,6 +78,22 @@ struct PolyOp {
         else if (op == "pow") P.pow(A(0), A(1), (uint64_t) s);
         else if (op == "powmod") P.powmod(A(0), A(1), (uint64_t) s, A(2));
         else if (op == "modpowx") P.modpowx(A(0), A(1), Degree(s));
+        else if (op == "karamul") P.karamul(A(0), A(1), A(2));
+        else if (op == "midmul") P.midmul(A(0), A(1), A(2));
+        else if (op == "stdmidmul") P.stdmidmul(A(0), A(1), A(2));
+        else if (op == "karamidmul") P.karamidmul(A(0), A(1), A(2));
+        else if (op == "mul.trunc") P.mul(A(0), A(1), A(2), Degree(s), Degree(x.size() > 1 ? atol(x[1].c_str()) : s));
+        else if (op == "divmodin") P.divmodin(A(0), A(1), A(2));                  // (q, r, b)
+        else if (op == "pdivmod") { Base::Element m; g_base->init(m); P.pdivmod(A(0), A(1), m, A(2), A(3)); long v; g_base->convert(v, m); ret = std::to_string(v); }
+        else if (op == "pmod") { Base::Element m; g_base->init(m); P.pmod(A(0), m, A(1), A(2)); long v; g_base->convert(v, m); ret = std::to_string(v); }
+        else if (op == "invmodunit") P.invmodunit(A(0), A(1), A(2));
+        else if (op == "invmodpowx") P.invmodpowx(A(0), A(1), Degree(s));
+        else if (op == "power_compose") P.power_compose(A(0), A(1), (uint64_t) s);
+        else if (op == "ratrecon") { bool b = P.ratrecon(A(0), A(1), A(2), A(3), Degree(s)); ret = b ? "1" : "0"; }   // (n, d, p, m)
+        else if (op == "inv") P.inv(A(0), A(1));
+        else if (op == "shift") P.shift(A(0), A(1), (int) s);
+        else if (op == "maxpy.s") P.maxpy(A(0), c, A(1), A(2));
+        else if (op == "mod.s") P.mod(A(0), A(1), c);
         else if (op == "addin") P.addin(A(0), A(1));
         else if (op == "subin") P.subin(A(0), A(1));
         else if (op == "mulin") P.mulin(A(0), A(1));
